@@ -125,6 +125,19 @@ Qed.
 Lemma rs_zero ps bits : rs bits (zero_bits ps) = 0.
 Proof. unfold rs. rewrite gf2_mod, dot_zero. reflexivity. Qed.
 
+Lemma rs_binary bits mask : rs bits mask = 0 \/ rs bits mask = 1.
+Proof. apply gf2_binary. Qed.
+
+Lemma pi_exp_cong a b : (4 * (u8 ((a mod 2) * (b mod 2)) mod 2)) mod 8 = (4 * (a * b)) mod 8.
+Proof.
+  unfold u8.
+  assert (Hm : (a * b) mod 2 = ((a mod 2) * (b mod 2)) mod 2) by (apply Z.mul_mod; lia).
+  assert (Hx : a mod 2 = 0 \/ a mod 2 = 1) by (pose proof (Z.mod_pos_bound a 2); lia).
+  assert (Hy : b mod 2 = 0 \/ b mod 2 = 1) by (pose proof (Z.mod_pos_bound b 2); lia).
+  remember (a * b) as P eqn:EP. clear EP.
+  destruct Hx as [Ex|Ex], Hy as [Ey|Ey]; rewrite Ex, Ey in *; lia.
+Qed.
+
 Lemma vsum_nonneg vals vs : binary vals -> 0 <= vsum vals vs.
 Proof.
   intro Hb. unfold vsum. induction vs as [|v vs IH]; cbn [map]; rewrite ?zsum_cons, ?zsum_nil; [lia|].
@@ -132,28 +145,32 @@ Proof.
 Qed.
 
 (* ====================================================================== 3. the no-wrap guard makes int32 arithmetic exact *)
-Lemma pow_ok_spec p : pow_ok p = true -> - 2 ^ 29 < p < 2 ^ 29.
-Proof. unfold pow_ok. rewrite andb_true_iff, !Z.ltb_lt. tauto. Qed.
+Lemma pow_ok_spec p : pow_ok p = true -> - 536870912 < p < 536870912.
+Proof. unfold pow_ok. change (2 ^ 29) with 536870912. rewrite andb_true_iff, !Z.ltb_lt. tauto. Qed.
 
 Lemma mul_fits_exact x y : mul_fits x y = true -> esa_mul x y = esa_mul_exact x y.
 Proof.
   unfold mul_fits. rewrite !andb_true_iff, Z.ltb_lt. intros [[Hn Hx] Hy].
   apply pow_ok_spec in Hx, Hy. unfold esa_mul, esa_mul_exact. f_equal.
   - apply mul32_exact. exact Hn.
-  - apply wrap32_id. unfold in32, H32. change (2 ^ 29) with 536870912 in *. lia.
+  - apply wrap32_id. unfold in32, H32. lia.
 Qed.
-Lemma mul_fits_pows x y : mul_fits x y = true -> - 2 ^ 29 < snd x < 2 ^ 29 /\ - 2 ^ 29 < snd y < 2 ^ 29.
+Lemma mul_fits_pows x y : mul_fits x y = true -> - 536870912 < snd x < 536870912 /\ - 536870912 < snd y < 536870912.
 Proof.
   unfold mul_fits. rewrite !andb_true_iff. intros [[_ Hx] Hy]. split; apply pow_ok_spec; assumption.
 Qed.
 
-Lemma reduce_sound c p c' p' : reduce (c, p) = Some (c', p') -> - 2 ^ 30 < p < 2 ^ 30 ->
+(* NB: never let Coq convert `reduce (c, p)` with `reduce_fuel 34 (c, p)` (the kernel unfolds the 34 rounds); rewrite instead *)
+Lemma reduce_unfold x : reduce x = reduce_fuel 34 x.
+Proof. reflexivity. Qed.
+Lemma reduce_sound c p c' p' : reduce (c, p) = Some (c', p') -> - 1073741824 < p < 1073741824 ->
   exists k, 0 <= k /\ p' = p + k /\ c = q4_scale (2 ^ k) c'.
 Proof.
-  intros H Hp. unfold reduce in H. apply reduce_fuel_sound in H.
-  - destruct H as (k & Hk & Hp' & Hc & _). exists k. repeat split; try lia; assumption.
-  - unfold in32, H32. change (2 ^ 30) with 1073741824 in Hp. lia.
-  - unfold H32. change (2 ^ 30) with 1073741824 in Hp. change (Z.of_nat 34) with 34. lia.
+  intros H Hp. rewrite reduce_unfold in H.
+  assert (Hin : in32 p) by (unfold in32, H32; lia).
+  assert (Hlt : p + Z.of_nat 34 < H32) by (unfold H32; change (Z.of_nat 34) with 34; lia).
+  destruct (reduce_fuel_sound 34 c p c' p' H Hin Hlt) as (k & Hk & Hp' & Hc & _).
+  exists k. repeat split; try lia; assumption.
 Qed.
 
 (* aligned sum without wrap *)
@@ -210,3 +227,775 @@ Proof.
     - unfold align_exact at 1. rewrite norm1_scale, Z.abs_eq by (apply Z.pow_nonneg; lia). nia. }
   destruct Hmap as [Hmap Hle]. rewrite Hmap. apply fold_add32_exact. cbn [q4_zero norm1 Z.abs]. lia.
 Qed.
+
+(* ====================================================================== 4. the ring: w^4 = -1, half + half = 1 *)
+Section RingSem.
+  Variable R : Type.
+  Variables (rO rI : R) (radd rmul rsub : R -> R -> R) (ropp : R -> R).
+  Variable Rth : ring_theory rO rI radd rmul rsub ropp eq.
+  Add Ring RringC10 : Rth.
+  Variable w : R.
+  Hypothesis w4 : rmul (rmul w w) (rmul w w) = ropp rI.
+  Variable half : R.
+  Hypothesis half2 : radd half half = rI.
+  Notation wpow := (wpow R rI rmul w).
+  Notation den := (den R rO rI radd rmul ropp w).
+  Notation ofZ := (ofZ R rO rI radd rmul ropp).
+  Notation rpow := (rpow R rI rmul).
+  Notation rprodl := (rprodl R rI rmul).
+  Notation rsuml := (rsuml R rO radd).
+  Notation zpow := (zpow R rI rmul).
+  Notation r2 := (r2 R rI radd).
+  Notation pow2 := (pow2 R rI radd rmul half).
+  Notation sqrt2 := (sqrt2 R rmul rsub w).
+  Notation sqrt2pow := (sqrt2pow R rI rmul rsub w half).
+  Notation cexp4 := (cexp4 R rI rmul w).
+  Notation dy_value := (dy_value R rO rI radd rmul ropp w half).
+  Notation esa_value := (esa_value R rO rI radd rmul ropp w half).
+
+  (* ---------------------------------------------------------------- powers *)
+  Lemma rpow_add x a b : rpow x (a + b)%nat = rmul (rpow x a) (rpow x b).
+  Proof. induction a as [|a IH]; cbn [Nat.add Compile.rpow]; [ring | rewrite IH; ring]. Qed.
+  Lemma rprodl_app l1 l2 : rprodl (l1 ++ l2) = rmul (rprodl l1) (rprodl l2).
+  Proof. induction l1 as [|x l1 IH]; cbn [app Compile.rprodl]; [ring | rewrite IH; ring]. Qed.
+  Lemma rprodl_repeat_one n : rprodl (repeat rI n) = rI.
+  Proof. induction n as [|n IH]; cbn [repeat Compile.rprodl]; [reflexivity | rewrite IH; ring]. Qed.
+  Lemma rsuml_app l1 l2 : rsuml (l1 ++ l2) = radd (rsuml l1) (rsuml l2).
+  Proof. induction l1 as [|x l1 IH]; cbn [app Compile.rsuml]; [ring | rewrite IH; ring]. Qed.
+
+  Section ZPow.
+    Variables b bi : R.
+    Hypothesis b_inv : rmul b bi = rI.
+    Lemma zpow_0 : zpow b bi 0 = rI.
+    Proof. reflexivity. Qed.
+    Lemma zpow_succ n : zpow b bi (n + 1) = rmul b (zpow b bi n).
+    Proof.
+      unfold Compile.zpow. destruct (0 <=? n) eqn:E1; destruct (0 <=? n + 1) eqn:E2;
+        rewrite ?Z.leb_le, ?Z.leb_gt in E1, E2; try lia.
+      - rewrite Z2Nat.inj_add by lia. change (Z.to_nat 1) with 1%nat. rewrite Nat.add_comm. cbn [Nat.add Compile.rpow]. reflexivity.
+      - assert (n = -1) by lia. subst n. change (rI = rmul b (rmul bi rI)).
+        transitivity (rmul (rmul b bi) rI); [rewrite b_inv; ring | ring].
+      - replace (Z.to_nat (- n)) with (S (Z.to_nat (- (n + 1)))) by lia. cbn [Compile.rpow].
+        transitivity (rmul (rmul b bi) (rpow bi (Z.to_nat (- (n + 1))))); [rewrite b_inv; ring | ring].
+    Qed.
+    Lemma zpow_pred n : zpow b bi (n - 1) = rmul bi (zpow b bi n).
+    Proof.
+      replace n with ((n - 1) + 1) at 2 by lia. rewrite zpow_succ.
+      transitivity (rmul (rmul b bi) (zpow b bi (n - 1))); [rewrite b_inv; ring | ring].
+    Qed.
+    Lemma zpow_add n m : zpow b bi (n + m) = rmul (zpow b bi n) (zpow b bi m).
+    Proof.
+      revert m. apply Z.peano_ind.
+      - rewrite Z.add_0_r, zpow_0. ring.
+      - intros m IH. unfold Z.succ. rewrite Z.add_assoc, !zpow_succ, IH. ring.
+      - intros m IH. unfold Z.pred. replace (n + (m + -1)) with ((n + m) - 1) by lia. replace (m + -1) with (m - 1) by lia.
+        rewrite !zpow_pred, IH. ring.
+    Qed.
+    Lemma zpow_nonneg n : 0 <= n -> zpow b bi n = rpow b (Z.to_nat n).
+    Proof. intro H. unfold Compile.zpow. apply Z.leb_le in H. rewrite H. reflexivity. Qed.
+  End ZPow.
+
+  Lemma r2_half : rmul r2 half = rI.
+  Proof. unfold Compile.r2. transitivity (radd half half); [ring | exact half2]. Qed.
+  Lemma pow2_add n m : pow2 (n + m) = rmul (pow2 n) (pow2 m).
+  Proof. apply zpow_add, r2_half. Qed.
+  Lemma pow2_0 : pow2 0 = rI.
+  Proof. reflexivity. Qed.
+  Lemma ofZ_2 : ofZ 2 = r2.
+  Proof. reflexivity. Qed.
+  Lemma pow2_ofZ k : 0 <= k -> pow2 k = ofZ (2 ^ k).
+  Proof.
+    intro Hk. pattern k. apply natlike_ind; [reflexivity | | exact Hk].
+    intros x Hx IH. unfold Z.succ. rewrite Z.pow_add_r, Z.pow_1_r by lia.
+    rewrite (ofZ_mul R rO rI radd rmul rsub ropp Rth), <- IH, ofZ_2.
+    unfold Compile.pow2. rewrite (zpow_succ _ _ r2_half). ring.
+  Qed.
+
+  Lemma sqrt2_sq : rmul sqrt2 sqrt2 = r2.
+  Proof.
+    unfold Compile.sqrt2, Compile.r2.
+    match goal with |- ?L = ?Rr =>
+      assert (E : L = radd Rr (rmul (radd (rmul (rmul w w) (rmul w w)) rI) (rsub (rmul w w) (radd rI rI)))) by ring end.
+    rewrite E, (w4_zero R rO rI radd rmul rsub ropp Rth w w4). ring.
+  Qed.
+  Lemma sqrt2_inv : rmul sqrt2 (rmul sqrt2 half) = rI.
+  Proof. transitivity (rmul (rmul sqrt2 sqrt2) half); [ring | rewrite sqrt2_sq; apply r2_half]. Qed.
+  Lemma sqrt2pow_add n m : sqrt2pow (n + m) = rmul (sqrt2pow n) (sqrt2pow m).
+  Proof. apply zpow_add, sqrt2_inv. Qed.
+  Lemma sqrt2pow_1 : sqrt2pow 1 = sqrt2.
+  Proof. change (rmul sqrt2 rI = sqrt2). ring. Qed.
+  Lemma sqrt2pow_even m : sqrt2pow (2 * m) = pow2 m.
+  Proof.
+    pattern m. apply Z.peano_ind.
+    - reflexivity.
+    - intros x IH. unfold Z.succ. replace (2 * (x + 1)) with (2 * x + 1 + 1) by lia.
+      unfold Compile.sqrt2pow in *. rewrite !(zpow_succ _ _ sqrt2_inv), IH.
+      unfold Compile.pow2. rewrite (zpow_succ _ _ r2_half), <- sqrt2_sq. ring.
+    - intros x IH. unfold Z.pred. replace (2 * (x + -1)) with (2 * x - 1 - 1) by lia. replace (x + -1) with (x - 1) by lia.
+      unfold Compile.sqrt2pow in *. rewrite !(zpow_pred _ _ sqrt2_inv), IH.
+      unfold Compile.pow2. rewrite (zpow_pred _ _ r2_half).
+      transitivity (rmul (rmul (rmul sqrt2 sqrt2) half) (rmul half (zpow r2 half x))); [ring|].
+      rewrite sqrt2_sq, r2_half. ring.
+  Qed.
+
+  (* ---------------------------------------------------------------- powers of w; exponents only matter mod 8 *)
+  Definition wz (e : Z) : R := wpow (Z.to_nat (e mod 8)).
+  Lemma wpow_add a b : wpow (a + b)%nat = rmul (wpow a) (wpow b).
+  Proof. induction a as [|a IH]; cbn [Nat.add D8.wpow]; [ring | rewrite IH; ring]. Qed.
+  Lemma wpow_8 : wpow 8 = rI.
+  Proof.
+    cbn [D8.wpow].
+    match goal with |- ?L = _ => assert (E : L = rmul (rmul (rmul w w) (rmul w w)) (rmul (rmul w w) (rmul w w))) by ring end.
+    rewrite E, w4. ring.
+  Qed.
+  Lemma wpow_mod8 n : wpow n = wpow (n mod 8)%nat.
+  Proof.
+    rewrite (Nat.div_mod n 8) at 1 by lia. generalize (n / 8)%nat as q. intro q.
+    induction q as [|q IH]; [rewrite Nat.mul_0_r; reflexivity|].
+    replace (8 * S q + n mod 8)%nat with (8 + (8 * q + n mod 8))%nat by lia.
+    rewrite wpow_add, wpow_8, IH. ring.
+  Qed.
+  Lemma wz_add a b : wz (a + b) = rmul (wz a) (wz b).
+  Proof.
+    unfold wz. rewrite <- wpow_add, (wpow_mod8 (_ + _)). f_equal.
+    apply Nat2Z.inj. rewrite Nat2Z.inj_mod, Nat2Z.inj_add, !Z2Nat.id by (apply Z.mod_pos_bound; lia).
+    change (Z.of_nat 8) with 8. lia.
+  Qed.
+  Lemma wz_cong a b : a mod 8 = b mod 8 -> wz a = wz b.
+  Proof. unfold wz. intros ->. reflexivity. Qed.
+  Lemma cexp4_wz e : 0 <= e -> cexp4 e = wz e.
+  Proof.
+    intro He. unfold Compile.cexp4, wz. rewrite wpow_mod8. f_equal.
+    apply Nat2Z.inj. rewrite Nat2Z.inj_mod, !Z2Nat.id by (try apply Z.mod_pos_bound; lia). reflexivity.
+  Qed.
+  Lemma wz_0 : wz 0 = rI.
+  Proof. reflexivity. Qed.
+  Lemma wz_4 : wz 4 = ropp rI.
+  Proof.
+    unfold wz. change (Z.to_nat (4 mod 8)) with 4%nat. cbn [D8.wpow]. rewrite <- w4. ring.
+  Qed.
+  Lemma wz_zsum l : wz (zsum l) = rprodl (map wz l).
+  Proof. induction l as [|x l IH]; cbn [map Compile.rprodl]; rewrite ?zsum_cons, ?zsum_nil; [apply wz_0 | rewrite wz_add, IH; reflexivity]. Qed.
+
+  Lemma to_nat_mod8_lt e : (Z.to_nat (e mod 8) < 8)%nat.
+  Proof. pose proof (Z.mod_pos_bound e 8). lia. Qed.
+  Lemma den_unit_wz e : den (unit_phase (Z.to_nat (e mod 8))) = wz e.
+  Proof. unfold wz. apply (den_unit_phase R rO rI radd rmul rsub ropp Rth w w4), to_nat_mod8_lt. Qed.
+  Lemma den_one_plus_wz e : den (one_plus_phase (Z.to_nat (e mod 8))) = radd rI (wz e).
+  Proof. unfold wz. apply (den_one_plus_phase R rO rI radd rmul rsub ropp Rth w w4), to_nat_mod8_lt. Qed.
+  Lemma den_identity : den identity_d8 = rI.
+  Proof. rewrite identity_is_one. apply (den_one R rO rI radd rmul rsub ropp Rth). Qed.
+
+  (* ---------------------------------------------------------------- values of ExactScalarArray elements *)
+  Lemma esa_value_pow0 c : esa_value (c, 0) = den c.
+  Proof. unfold Evaluate.esa_value, den4; cbn [fst snd]. rewrite pow2_0. ring. Qed.
+  Lemma esa_value_identity : esa_value (@pair q4 Z identity_d8 0) = rI.
+  Proof. rewrite esa_value_pow0. apply den_identity. Qed.
+  Lemma esa_value_mul_exact x y : esa_value (esa_mul_exact x y) = rmul (esa_value x) (esa_value y).
+  Proof.
+    unfold Evaluate.esa_value, esa_mul_exact, den4; cbn [fst snd].
+    rewrite (den_scalar_mul R rO rI radd rmul rsub ropp Rth w w4), pow2_add. ring.
+  Qed.
+  Lemma esa_value_scale k c p : 0 <= k -> esa_value (q4_scale (2 ^ k) c, p) = esa_value (c, p + k).
+  Proof.
+    intro Hk. unfold Evaluate.esa_value, den4; cbn [fst snd].
+    rewrite (den_scale R rO rI radd rmul rsub ropp Rth), pow2_add, (pow2_ofZ k Hk). ring.
+  Qed.
+  Lemma esa_value_reduce x r : reduce x = Some r -> - 1073741824 < snd x < 1073741824 -> esa_value r = esa_value x.
+  Proof.
+    destruct x as [c p], r as [c' p']. cbn [snd]. intros H Hp. destruct (reduce_sound _ _ _ _ H Hp) as (k & Hk & -> & ->).
+    symmetry. apply esa_value_scale. exact Hk.
+  Qed.
+
+  Lemma combine_value a x r : mul_fits a x = true -> combine a x = Some r -> esa_value r = rmul (esa_value a) (esa_value x).
+  Proof.
+    intros Hf H. rewrite <- esa_value_mul_exact.
+    destruct (mul_fits_pows _ _ Hf) as [Ha Hx].
+    assert (Hc : combine a x = if prod_reduces then reduce (esa_mul_exact a x) else Some (esa_mul_exact a x)).
+    { unfold combine. rewrite (mul_fits_exact _ _ Hf). reflexivity. }
+    rewrite Hc in H. clear Hc.
+    destruct prod_reduces.
+    - apply esa_value_reduce in H; [exact H|]. unfold esa_mul_exact. cbn [snd]. lia.
+    - inversion H. reflexivity.
+  Qed.
+  Lemma fold_combine_value l : forall acc, fold_guard l acc = true ->
+    exists r, fold_combine l acc = Some r /\ esa_value r = rmul (esa_value acc) (rprodl (map esa_value l)).
+  Proof.
+    induction l as [|x l IH]; intros acc Hg; cbn [fold_combine fold_guard map Compile.rprodl] in *.
+    - exists acc. split; [reflexivity | ring].
+    - apply andb_true_iff in Hg. destruct Hg as [Hf Hg].
+      destruct (combine acc x) as [a|] eqn:Hc; [|discriminate].
+      destruct (IH a Hg) as (r & Hr & Hv). exists r. split; [exact Hr|].
+      rewrite Hv, (combine_value _ _ _ Hf Hc). ring.
+  Qed.
+  Lemma esa_prod_value l : prod_guard l = true ->
+    exists r, esa_prod l = Some r /\ esa_value r = rprodl (map esa_value l).
+  Proof.
+    destruct l as [|x l]; intro Hg; cbn [esa_prod prod_guard map Compile.rprodl] in *.
+    - exists (q4_one, 0). split; [reflexivity|]. rewrite <- identity_is_one. apply esa_value_identity.
+    - apply fold_combine_value. exact Hg.
+  Qed.
+  Lemma chain_value l : forall acc, chain_guard l acc = true ->
+    esa_value (fold_left esa_mul l acc) = rmul (esa_value acc) (rprodl (map esa_value l)).
+  Proof.
+    induction l as [|x l IH]; intros acc Hg; cbn [fold_left chain_guard map Compile.rprodl] in *; [ring|].
+    apply andb_true_iff in Hg. destruct Hg as [Hf Hg].
+    rewrite (IH _ Hg), (mul_fits_exact _ _ Hf), esa_value_mul_exact. ring.
+  Qed.
+
+  (* aligned sum *)
+  Lemma esa_sum_value l s : sum_guard l = true -> esa_sum l = Some s -> esa_value s = rsuml (map esa_value l).
+  Proof.
+    intros Hg Hs. destruct (sum_guard_exact l Hg) as [E (c & m & Hex)]. rewrite E, Hex in Hs. inversion Hs; subst s.
+    destruct (den_sum_exact R rO rI radd rmul rsub ropp Rth w l c m Hex) as (Hden & Hmin & _).
+    unfold Evaluate.esa_value at 1, den4. cbn [fst snd]. rewrite Hden.
+    clear Hden Hex Hs E Hg. induction l as [|x l IH]; cbn [map ExactScalarProofs.rsum Compile.rsuml]; [ring|].
+    rewrite <- IH by (intros y Hy; apply Hmin; right; exact Hy).
+    specialize (Hmin x (or_introl eq_refl)).
+    unfold Evaluate.esa_value, den4.
+    replace (pow2 (snd x)) with (pow2 (m + (snd x - m))) by (f_equal; lia).
+    rewrite pow2_add, (pow2_ofZ (snd x - m)) by lia. ring.
+  Qed.
+
+  (* ---------------------------------------------------------------- masking and padding *)
+  Lemma masked_app {A} (f : A -> q4) l1 : forall j num l2,
+    masked f j num (l1 ++ l2) = masked f j num l1 ++ masked f (j + Z.of_nat (length l1)) num l2.
+  Proof.
+    induction l1 as [|t l1 IH]; intros j num l2; cbn [app masked length].
+    - rewrite Z.add_0_r. reflexivity.
+    - rewrite IH. do 3 f_equal. lia.
+  Qed.
+  Lemma masked_inside {A} (f : A -> q4) l : forall j num, j + Z.of_nat (length l) <= num ->
+    map esa_value (masked f j num l) = map (fun t => den (f t)) l.
+  Proof.
+    induction l as [|t l IH]; intros j num H; cbn [masked map length] in *; [reflexivity|].
+    destruct (j <? num) eqn:E; [|apply Z.ltb_ge in E; lia]. rewrite esa_value_pow0, IH by lia. reflexivity.
+  Qed.
+  Lemma masked_outside {A} (f : A -> q4) l : forall j num, num <= j -> rprodl (map esa_value (masked f j num l)) = rI.
+  Proof.
+    induction l as [|t l IH]; intros j num H; cbn [masked map Compile.rprodl]; [reflexivity|].
+    destruct (j <? num) eqn:E; [apply Z.ltb_lt in E; lia|]. rewrite esa_value_identity, IH by lia. ring.
+  Qed.
+  Lemma masked_pad_prod {A} (f : A -> q4) (real : list A) d k :
+    rprodl (map esa_value (masked f 0 (Z.of_nat (length real)) (pad d k real))) = rprodl (map (fun t => den (f t)) real).
+  Proof.
+    unfold pad. rewrite masked_app, map_app, rprodl_app, masked_inside, masked_outside by lia. ring.
+  Qed.
+  Lemma zsum_pad_zero {A} (f : A -> Z) d k real : f d = 0 -> zsum (map f (pad d k real)) = zsum (map f real).
+  Proof.
+    intro Hd. unfold pad. rewrite map_app, zsum_app. generalize (k - length real)%nat as n. intro n.
+    induction n as [|n IH]; cbn [repeat map]; rewrite ?zsum_cons, ?zsum_nil in *; lia.
+  Qed.
+
+  (* ---------------------------------------------------------------- the four term types against pyzx's factors *)
+  Section Terms.
+    Variable vals : var -> Z.
+    Variable ps : list var.
+    Hypothesis Hbin : binary vals.
+    Hypothesis Hps : NoDup ps.
+    Notation bits := (row_of vals ps).
+    Notation node_value := (node_value R rI radd rmul w vals).
+    Notation pair_value := (pair_value R rI radd rmul rsub w vals).
+    Notation halfpi_value := (halfpi_value R rI rmul w vals).
+    Notation pipair_value := (pipair_value R rI rmul w vals).
+
+    (* A *)
+    Lemma val_a_value k vs : byte k -> vars_ok ps vs -> den (val_a bits (k, bitstr ps vs)) = node_value (k, vs).
+    Proof.
+      intros Hk Hvs. unfold val_a, idx_a, Compile.node_value. cbn [fst snd]. rewrite rs_bitstr by assumption.
+      rewrite den_one_plus_wz. f_equal. pose proof (vsum_nonneg vals vs Hbin). unfold byte in Hk.
+      rewrite cexp4_wz by lia. apply wz_cong. unfold u8. lia.
+    Qed.
+    Lemma a_terms_value g : Forall (fun t => byte (fst t) /\ vars_ok ps (snd t)) (s_phasenodes g) ->
+      map (fun t => den (val_a bits t)) (a_terms ps g) = map node_value (s_phasenodes g).
+    Proof.
+      intro Hwf. unfold a_terms. rewrite map_map. apply map_ext_in. intros [k vs] Hin.
+      rewrite Forall_forall in Hwf. destruct (Hwf _ Hin) as [Hk Hvs]. cbn [fst snd] in *. apply val_a_value; assumption.
+    Qed.
+
+    (* B *)
+    Definition bval (d : list (list bool * Z)) : R := rprodl (map (fun e => wz (2 * snd e * rs bits (fst e))) d).
+    Lemma bl_eqb_eq a : forall b, bl_eqb a b = true -> a = b.
+    Proof.
+      induction a as [|x a IH]; intros [|y b] H; cbn [bl_eqb] in H; try discriminate; [reflexivity|].
+      apply andb_true_iff in H. destruct H as [H1 H2]. apply Bool.eqb_prop in H1. rewrite H1, (IH _ H2). reflexivity.
+    Qed.
+    Lemma wz_acc v j r : r = 0 \/ r = 1 -> wz (2 * ((v + j) mod 4) * r) = rmul (wz (2 * v * r)) (wz (2 * j * r)).
+    Proof. intros [-> | ->]; rewrite <- wz_add; apply wz_cong; lia. Qed.
+    Lemma bval_acc_add key j d : bval (acc_add key j d) = rmul (bval d) (wz (2 * j * rs bits key)).
+    Proof.
+      unfold bval. induction d as [|e d IH]; cbn [acc_add map Compile.rprodl fst snd].
+      - rewrite (wz_acc 0 j _ (rs_binary _ _)). cbn [Z.mul]. rewrite wz_0. ring.
+      - destruct (bl_eqb (fst e) key) eqn:E; cbn [map Compile.rprodl fst snd].
+        + apply bl_eqb_eq in E. rewrite <- E, (wz_acc _ _ _ (rs_binary _ _)). ring.
+        + rewrite IH. ring.
+    Qed.
+    Lemma bval_fold j l : forall d,
+      bval (fold_left (fun d vs => acc_add (bitstr ps vs) j d) l d) = rmul (bval d) (rprodl (map (fun vs => wz (2 * j * rs bits (bitstr ps vs))) l)).
+    Proof.
+      induction l as [|vs l IH]; intro d; cbn [fold_left map Compile.rprodl]; [ring|].
+      rewrite IH, bval_acc_add. ring.
+    Qed.
+    Lemma idx_b_wz v key : wz (idx_b bits (v * 2, key)) = wz (2 * v * rs bits key).
+    Proof.
+      unfold idx_b, u8. cbn [fst snd]. destruct (rs_binary bits key) as [E|E]; rewrite E; apply wz_cong; lia.
+    Qed.
+    Lemma b_terms_bval d :
+      rprodl (map wz (map (idx_b bits) (map (fun e => (snd e * 2, fst e)) (filter (fun e => negb (snd e =? 0)) d)))) = bval d.
+    Proof.
+      unfold bval. induction d as [|e d IH]; cbn [filter map Compile.rprodl]; [reflexivity|].
+      destruct (snd e =? 0) eqn:E; cbn [negb map Compile.rprodl fst snd].
+      - apply Z.eqb_eq in E. rewrite E, IH, Z.mul_0_r, Z.mul_0_l, wz_0. ring.
+      - rewrite IH, idx_b_wz. reflexivity.
+    Qed.
+    Lemma halfpi_wz j vs : 0 <= j -> vars_ok ps vs -> wz (2 * j * rs bits (bitstr ps vs)) = halfpi_value j vs.
+    Proof.
+      intros Hj Hvs. unfold Compile.halfpi_value. rewrite rs_bitstr by assumption.
+      rewrite cexp4_wz by (pose proof (Z.mod_pos_bound (vsum vals vs) 2); nia). f_equal. ring.
+    Qed.
+    Lemma b_terms_value g : Forall (vars_ok ps) (s_halfpi1 g) -> Forall (vars_ok ps) (s_halfpi3 g) ->
+      wz (zsum (map (idx_b bits) (b_terms ps g)))
+      = rmul (rprodl (map (halfpi_value 1) (s_halfpi1 g))) (rprodl (map (halfpi_value 3) (s_halfpi3 g))).
+    Proof.
+      intros H1 H3. rewrite wz_zsum. unfold b_terms. rewrite b_terms_bval. unfold b_acc. rewrite !bval_fold.
+      unfold bval at 1. cbn [map Compile.rprodl].
+      assert (E : forall j l, 0 <= j -> Forall (vars_ok ps) l ->
+                  map (fun vs => wz (2 * j * rs bits (bitstr ps vs))) l = map (halfpi_value j) l).
+      { intros j l Hj Hl. apply map_ext_in. intros vs Hin. rewrite Forall_forall in Hl. apply halfpi_wz; [exact Hj | apply Hl; exact Hin]. }
+      rewrite !E by (assumption || lia). ring.
+    Qed.
+
+    (* C *)
+    Lemma side_parity (s : pside) : vars_ok ps (snd s) ->
+      u8 (b2z (fst s) + rs bits (bitstr ps (snd s))) mod 2 = side_sum vals s mod 2.
+    Proof.
+      intro Hs. rewrite rs_bitstr by assumption. unfold side_sum, u8. destruct (b2z_binary (fst s)) as [E|E]; rewrite E; lia.
+    Qed.
+    Lemma exp_c_value (pq : pside * pside) : vars_ok ps (snd (fst pq)) -> vars_ok ps (snd (snd pq)) ->
+      wz (4 * exp_c bits (b2z (fst (fst pq)), bitstr ps (snd (fst pq)), b2z (fst (snd pq)), bitstr ps (snd (snd pq)))) = pipair_value pq.
+    Proof.
+      intros Ha Hb. unfold exp_c, Compile.pipair_value. rewrite !side_parity by assumption.
+      assert (Hnn : forall s : pside, 0 <= side_sum vals s).
+      { intro s. unfold side_sum. pose proof (vsum_nonneg vals (snd s) Hbin). destruct (b2z_binary (fst s)); lia. }
+      pose proof (Hnn (fst pq)). pose proof (Hnn (snd pq)).
+      rewrite cexp4_wz by nia. apply wz_cong.
+      apply pi_exp_cong.
+    Qed.
+    Lemma ev_c_den S : den (q4_scale (1 - 2 * (S mod 2)) (1, 0, 0, 0)) = wz (4 * S).
+    Proof.
+      rewrite (den_scale R rO rI radd rmul rsub ropp Rth). change (1, 0, 0, 0) with q4_one.
+      rewrite (den_one R rO rI radd rmul rsub ropp Rth).
+      pose proof (Z.mod_pos_bound S 2 ltac:(lia)) as Hb. assert (Hc : S mod 2 = 0 \/ S mod 2 = 1) by lia.
+      destruct Hc as [E|E]; rewrite E.
+      - change (1 - 2 * 0) with 1. rewrite (ofZ_1 R rO rI radd rmul rsub ropp Rth), <- wz_0.
+        transitivity (wz 0); [rewrite wz_0; ring | apply wz_cong; lia].
+      - change (1 - 2 * 1) with (-1). rewrite (ofZ_m1 R rO rI radd rmul ropp), <- wz_4.
+        transitivity (wz 4); [rewrite wz_4; ring | apply wz_cong; lia].
+    Qed.
+    Lemma wz_scale_zsum c l : wz (c * zsum l) = rprodl (map (fun x => wz (c * x)) l).
+    Proof.
+      induction l as [|x l IH]; cbn [map Compile.rprodl]; rewrite ?zsum_cons, ?zsum_nil.
+      - rewrite Z.mul_0_r. apply wz_0.
+      - rewrite Z.mul_add_distr_l, wz_add, IH. reflexivity.
+    Qed.
+    Lemma c_terms_value g : Forall (fun pq => vars_ok ps (snd (fst pq)) /\ vars_ok ps (snd (snd pq))) (s_pi_pair g) ->
+      wz (4 * zsum (map (exp_c bits) (c_terms ps g))) = rprodl (map pipair_value (s_pi_pair g)).
+    Proof.
+      intro Hwf. rewrite wz_scale_zsum. unfold c_terms. rewrite !map_map. f_equal. apply map_ext_in.
+      intros pq Hin. rewrite Forall_forall in Hwf. destruct (Hwf _ Hin) as [Ha Hb]. apply exp_c_value; assumption.
+    Qed.
+
+    (* D *)
+    Lemma den_sub x y : den (q4_sub x y) = rsub (den x) (den y).
+    Proof.
+      unfold q4_sub. rewrite (den_add R rO rI radd rmul rsub ropp Rth), (den_scale R rO rI radd rmul rsub ropp Rth),
+        (ofZ_m1 R rO rI radd rmul ropp). ring.
+    Qed.
+    Lemma val_d_value pp : byte (sp_alpha pp) -> byte (sp_beta pp) -> vars_ok ps (sp_A pp) -> vars_ok ps (sp_B pp) ->
+      den (val_d bits (sp_alpha pp, sp_beta pp, bitstr ps (sp_A pp), bitstr ps (sp_B pp))) = pair_value pp.
+    Proof.
+      intros Ha Hb HA HB. unfold val_d, Compile.pair_value. cbv beta iota zeta.
+      rewrite den_sub, !(den_add R rO rI radd rmul rsub ropp Rth), !den_unit_wz, den_identity.
+      rewrite !rs_bitstr by assumption.
+      pose proof (vsum_nonneg vals (sp_A pp) Hbin). pose proof (vsum_nonneg vals (sp_B pp) Hbin). unfold byte in *.
+      rewrite !cexp4_wz by lia.
+      f_equal; [f_equal; [f_equal|]|]; apply wz_cong; unfold u8; lia.
+    Qed.
+    Lemma d_terms_value g :
+      Forall (fun pp => byte (sp_alpha pp) /\ byte (sp_beta pp) /\ vars_ok ps (sp_A pp) /\ vars_ok ps (sp_B pp)) (s_phasepairs g) ->
+      map (fun t => den (val_d bits t)) (d_terms ps g) = map pair_value (s_phasepairs g).
+    Proof.
+      intro Hwf. unfold d_terms. rewrite map_map. apply map_ext_in. intros pp Hin.
+      rewrite Forall_forall in Hwf. destruct (Hwf _ Hin) as (Ha & Hb & HA & HB). apply val_d_value; assumption.
+    Qed.
+  End Terms.
+
+  (* ---------------------------------------------------------------- static part: DyadicNumber, sqrt2 power, phase *)
+  Lemma halve_den c : all_even c = true -> den c = rmul r2 (den (halve c)).
+  Proof.
+    intro H. rewrite <- (halve_double c H) at 1. rewrite (den_scale R rO rI radd rmul rsub ropp Rth), ofZ_2. reflexivity.
+  Qed.
+  Lemma pow2_succ n : pow2 (n + 1) = rmul r2 (pow2 n).
+  Proof. apply zpow_succ, r2_half. Qed.
+  Lemma dy_norm_value n : forall k c d, dy_norm_fuel n k c = Some d -> dy_value d = rmul (den c) (pow2 (- k)).
+  Proof.
+    induction n as [|n IH]; intros k c d H; cbn [dy_norm_fuel] in H; destruct (all_even c) eqn:E; try discriminate.
+    - inversion H. reflexivity.
+    - apply IH in H. rewrite H, (halve_den c E). replace (- (k - 1)) with (- k + 1) by lia. rewrite pow2_succ. ring.
+    - inversion H. reflexivity.
+  Qed.
+  Lemma dy_make_value k c d : dy_make k c = Some d -> dy_value d = rmul (den c) (pow2 (- k)).
+  Proof. apply dy_norm_value. Qed.
+  Lemma dy_mul_value x y d : dy_mul x y = Some d -> dy_value d = rmul (dy_value x) (dy_value y).
+  Proof.
+    intro H. apply dy_make_value in H. rewrite H. unfold Compile.dy_value, den4.
+    rewrite (den_mul_ref R rO rI radd rmul rsub ropp Rth w w4). replace (- (dy_k x + dy_k y)) with (- dy_k x + - dy_k y) by lia.
+    rewrite pow2_add. ring.
+  Qed.
+  Lemma dy_sqrt2_value : dy_value dy_sqrt2 = sqrt2.
+  Proof.
+    unfold Compile.dy_value, dy_sqrt2, den4, Compile.sqrt2. cbn [dy_c dy_k D8.den Z.opp]. rewrite pow2_0.
+    rewrite (ofZ_0 R rO rI radd rmul rsub ropp Rth), (ofZ_1 R rO rI radd rmul rsub ropp Rth). ring.
+  Qed.
+  Lemma static_float_value g p2 ff : static_float g = Some (p2, ff) ->
+    rmul (den ff) (pow2 p2) = rmul (sqrt2pow (s_power2 g)) (dy_value (s_floatfactor g)).
+  Proof.
+    unfold static_float. destruct (dy_make (dy_k (s_floatfactor g)) (dy_c (s_floatfactor g))) as [dn|] eqn:E1; [|discriminate].
+    apply dy_make_value in E1.
+    assert (E1' : dy_value dn = dy_value (s_floatfactor g)) by exact E1. clear E1.
+    destruct (Z.odd (s_power2 g)) eqn:Eo.
+    - destruct (dy_mul dn dy_sqrt2) as [dn'|] eqn:E2; [|discriminate]. intro H.
+      assert (Hp : p2 = (s_power2 g - 1 - 2 * dy_k dn') / 2 /\ ff = dy_c dn') by (split; congruence).
+      destruct Hp as [-> ->]. clear H.
+      apply dy_mul_value in E2. rewrite dy_sqrt2_value, E1' in E2.
+      apply Z.odd_spec in Eo. destruct Eo as [m Hm]. rewrite Hm.
+      replace ((2 * m + 1 - 1 - 2 * dy_k dn') / 2) with (m + - dy_k dn') by lia.
+      rewrite pow2_add, sqrt2pow_add, sqrt2pow_even, sqrt2pow_1.
+      transitivity (rmul (rmul (den (dy_c dn')) (pow2 (- dy_k dn'))) (pow2 m)); [ring|].
+      change (rmul (den (dy_c dn')) (pow2 (- dy_k dn'))) with (dy_value dn'). rewrite E2. ring.
+    - intro H.
+      assert (Hp : p2 = (s_power2 g - 2 * dy_k dn) / 2 /\ ff = dy_c dn) by (split; congruence).
+      destruct Hp as [-> ->]. clear H.
+      assert (Ee : Z.even (s_power2 g) = true) by (rewrite <- Z.negb_odd, Eo; reflexivity).
+      apply Z.even_spec in Ee. destruct Ee as [m Hm]. rewrite Hm.
+      replace ((2 * m - 2 * dy_k dn) / 2) with (m + - dy_k dn) by lia.
+      rewrite pow2_add, sqrt2pow_even.
+      transitivity (rmul (rmul (den (dy_c dn)) (pow2 (- dy_k dn))) (pow2 m)); [ring|].
+      change (rmul (den (dy_c dn)) (pow2 (- dy_k dn))) with (dy_value dn). rewrite E1'. ring.
+  Qed.
+
+  Variable cexp : Z -> positive -> R.
+  Variable opq : Z -> R.
+  Notation afac_value := (afac_value R rI rmul cexp opq).
+  Notation scalar_value := (scalar_value R rO rI radd rmul rsub ropp w half cexp opq).
+  Notation result_value := (result_value R rO rI radd rmul ropp w half cexp opq).
+  Hypothesis cexp_1 : forall n, 0 <= n -> cexp n 1 = cexp4 (4 * n).
+  Hypothesis cexp_2 : forall n, 0 <= n -> cexp n 2 = cexp4 (2 * n).
+  Hypothesis cexp_4 : forall n, 0 <= n -> cexp n 4 = cexp4 n.
+
+  Lemma quarter_den_cases d m : quarter_den d = Some m -> (d = 1%positive /\ m = 4) \/ (d = 2%positive /\ m = 2) \/ (d = 4%positive /\ m = 1).
+  Proof.
+    unfold quarter_den. destruct d as [d|d|]; try discriminate.
+    - destruct d as [d|d|]; try discriminate. destruct d; try discriminate. intro H; inversion H. right. right. split; reflexivity.
+      intro H; inversion H. right. left. split; reflexivity.
+    - intro H; inversion H. left. split; reflexivity.
+  Qed.
+  Lemma static_phase_value g :
+    0 <= s_phase_n g -> (forall m, quarter_den (s_phase_d g) = Some m -> s_phase_n g * m < 8) ->
+    rmul (den (unit_phase (Z.to_nat (Z.min (fst (static_phase g)) 7)))) (afac_value (snd (static_phase g)))
+    = rmul (cexp (s_phase_n g) (s_phase_d g)) (afac_value (s_approx g)).
+  Proof.
+    intros Hn Hlt. unfold static_phase. destruct (quarter_den (s_phase_d g)) as [m|] eqn:E; cbn [fst snd].
+    - specialize (Hlt m eq_refl). f_equal.
+      assert (Hm : 0 < m) by (destruct (quarter_den_cases _ _ E) as [[_ ->]|[[_ ->]|[_ ->]]]; lia).
+      assert (Hidx : 0 <= s_phase_n g * m) by nia.
+      rewrite Z.min_l by lia. rewrite <- (Z.mod_small (s_phase_n g * m) 8) at 1 by lia.
+      rewrite den_unit_wz, <- cexp4_wz by lia.
+      destruct (quarter_den_cases _ _ E) as [[-> ->]|[[-> ->]|[-> ->]]].
+      + rewrite cexp_1 by lia. f_equal. lia.
+      + rewrite cexp_2 by lia. f_equal. lia.
+      + rewrite cexp_4 by lia. f_equal. lia.
+    - change (Z.to_nat (Z.min 0 7)) with (Z.to_nat (0 mod 8)). rewrite den_unit_wz, wz_0. cbn [Compile.afac_value]. ring.
+  Qed.
+
+  (* ---------------------------------------------------------------- one graph, and the sum over graphs *)
+  Section Graphs.
+    Variable vals : var -> Z.
+    Variable ps : list var.
+    Hypothesis Hbin : binary vals.
+    Hypothesis Hps : NoDup ps.
+    Notation bits := (row_of vals ps).
+
+    Lemma idx_b_pad : idx_b bits (0, zero_bits ps) = 0.
+    Proof. unfold idx_b. cbn [fst snd]. rewrite rs_zero. reflexivity. Qed.
+    Lemma exp_c_pad : exp_c bits (0, zero_bits ps, 0, zero_bits ps) = 0.
+    Proof. unfold exp_c. rewrite rs_zero. reflexivity. Qed.
+
+    Lemma graph_value g cg ma mb mc md : wf_scalar ps g -> s_is_zero g = false ->
+      compile_one ps ma mb mc md g = Some cg -> graph_guard bits cg = true ->
+      exists t, ev_total bits cg = Some t /\ pow_ok (snd t + cg_power2 cg) = true /\
+        rmul (rmul (esa_value t) (afac_value (cg_approx cg))) (pow2 (cg_power2 cg)) = scalar_value vals g.
+    Proof.
+      intros Hwf Hnz Hc Hg. destruct Hwf as [Hwn Hwp Hw1 Hw3 Hwpi [Hph0 Hph1] _].
+      unfold compile_one in Hc. destruct (static_float g) as [[p2 ff]|] eqn:Esf; [|discriminate].
+      inversion Hc; subst cg; clear Hc.
+      unfold graph_guard in Hg. cbn [cg_a cg_a_num cg_d cg_d_num cg_power2] in Hg.
+      apply andb_true_iff in Hg. destruct Hg as [Hg Hrest]. apply andb_true_iff in Hg. destruct Hg as [Hga Hgd].
+      destruct (esa_prod_value _ Hga) as (ra & Era & Vra). destruct (esa_prod_value _ Hgd) as (rd & Erd & Vrd).
+      rewrite masked_pad_prod, (a_terms_value vals ps Hbin Hps g Hwn) in Vra.
+      rewrite masked_pad_prod, (d_terms_value vals ps Hbin Hps g Hwp) in Vrd.
+      unfold ev_total, ev_a, ev_d in *. cbn [cg_a cg_a_num cg_d cg_d_num cg_power2 cg_approx] in *.
+      rewrite Era, Erd in *.
+      apply andb_true_iff in Hrest. destruct Hrest as [Hrest Hpow]. apply andb_true_iff in Hrest. destruct Hrest as [Hrest _].
+      apply andb_true_iff in Hrest. destruct Hrest as [Hchain _].
+      eexists. split; [reflexivity|]. split; [exact Hpow|].
+      rewrite (chain_value _ _ Hchain). unfold ev_factors. cbn [map Compile.rprodl].
+      unfold ev_b, ev_c, ev_static, ev_float. cbn [cg_b cg_c cg_phase_idx cg_float].
+      rewrite !esa_value_pow0, den_unit_wz, ev_c_den.
+      rewrite (zsum_pad_zero (idx_b bits)) by apply idx_b_pad.
+      rewrite (zsum_pad_zero (exp_c bits)) by apply exp_c_pad.
+      rewrite (b_terms_value vals ps Hbin Hps g Hw1 Hw3), (c_terms_value vals ps Hbin Hps g Hwpi), Vra, Vrd.
+      pose proof (static_phase_value g Hph0 Hph1) as HS. pose proof (static_float_value g p2 ff Esf) as HF.
+      unfold Compile.scalar_value. rewrite Hnz.
+      match goal with |- rmul (rmul (rmul ?a (rmul ?B (rmul ?C (rmul ?d (rmul ?S (rmul ?F rI)))))) ?afv) ?P2 = _ =>
+        transitivity (rmul (rmul (rmul (rmul (rmul a B) C) d) (rmul S afv)) (rmul F P2)); [ring|] end.
+      rewrite HS, HF. ring.
+    Qed.
+
+    Lemma all_some_Forall2 {A B} (f : A -> option B) l : forall l', all_some (map f l) = Some l' -> Forall2 (fun x y => f x = Some y) l l'.
+    Proof.
+      induction l as [|x l IH]; intros l' H; cbn [map all_some] in H.
+      - inversion H. constructor.
+      - destruct (f x) as [y|] eqn:E; [|discriminate]. destruct (all_some (map f l)) as [r|]; [|discriminate].
+        inversion H. constructor; [exact E | apply IH; reflexivity].
+    Qed.
+    Lemma scalar_value_zero g : s_is_zero g = true -> scalar_value vals g = rO.
+    Proof. intro H. unfold Compile.scalar_value. rewrite H. reflexivity. Qed.
+    Lemma rsuml_filter_zero gs :
+      rsuml (map (scalar_value vals) (filter (fun g => negb (s_is_zero g)) gs)) = rsuml (map (scalar_value vals) gs).
+    Proof.
+      induction gs as [|g gs IH]; cbn [filter map Compile.rsuml]; [reflexivity|].
+      destruct (s_is_zero g) eqn:E; cbn [negb map Compile.rsuml]; rewrite IH; [rewrite (scalar_value_zero g E); ring | reflexivity].
+    Qed.
+    Lemma filter_nonzero gs g : In g (filter (fun g => negb (s_is_zero g)) gs) -> In g gs /\ s_is_zero g = false.
+    Proof. rewrite filter_In. intros [H1 H2]. split; [exact H1 | destruct (s_is_zero g); [discriminate | reflexivity]]. Qed.
+
+    (* approximate branch *)
+    Lemma approx_sum ma mb mc md kept cgs :
+      Forall2 (fun g cg => compile_one ps ma mb mc md g = Some cg) kept cgs ->
+      Forall (fun g => wf_scalar ps g /\ s_is_zero g = false) kept ->
+      forallb (graph_guard bits) cgs = true ->
+      exists l, all_some (map (ev_approx_one bits) cgs) = Some l /\
+        result_value (EvApprox l) = rsuml (map (scalar_value vals) kept).
+    Proof.
+      intro H2. induction H2 as [|g cg kept cgs H1 H2 IH]; intros Hwf Hg.
+      - exists []. split; reflexivity.
+      - apply Forall_cons_iff in Hwf. destruct Hwf as [[Hw Hz] Hwf'].
+        cbn [forallb] in Hg. apply andb_true_iff in Hg. destruct Hg as [Hg1 Hg2].
+        destruct (IH Hwf' Hg2) as (l & El & Vl).
+        destruct (graph_value g cg ma mb mc md Hw Hz H1 Hg1) as (t & Et & _ & Vt).
+        cbn [map all_some]. unfold ev_approx_one at 1. rewrite Et, El.
+        eexists. split; [reflexivity|].
+        cbn [Evaluate.result_value map Compile.rsuml fst snd] in *. rewrite Vl, Vt. reflexivity.
+    Qed.
+
+    (* exact branch *)
+    Lemma exact_sum ma mb mc md kept cgs :
+      Forall2 (fun g cg => compile_one ps ma mb mc md g = Some cg) kept cgs ->
+      forall l, Forall (fun g => wf_scalar ps g /\ s_is_zero g = false) kept ->
+      forallb (graph_guard bits) cgs = true ->
+      Forall (fun cg => cg_approx cg = AOne) cgs ->
+      all_some (map (ev_exact_one bits) cgs) = Some l ->
+      rsuml (map esa_value l) = rsuml (map (scalar_value vals) kept).
+    Proof.
+      intro H2. induction H2 as [|g cg kept cgs H1 H2 IH]; intros l Hwf Hg Hone Hl.
+      - cbn in Hl. assert (l = []) by congruence. subst l. reflexivity.
+      - apply Forall_cons_iff in Hwf. destruct Hwf as [[Hw Hz] Hwf'].
+        cbn [forallb] in Hg. apply andb_true_iff in Hg. destruct Hg as [Hg1 Hg2].
+        apply Forall_cons_iff in Hone. destruct Hone as [Ho1 Hone'].
+        cbn [map all_some] in Hl. destruct (ev_exact_one bits cg) as [r|] eqn:Er; [|discriminate].
+        destruct (all_some (map (ev_exact_one bits) cgs)) as [l0|] eqn:El0; [|discriminate].
+        assert (l = r :: l0) by congruence. subst l. clear Hl.
+        cbn [map Compile.rsuml]. rewrite (IH l0 Hwf' Hg2 Hone' eq_refl). f_equal.
+        destruct (graph_value g cg ma mb mc md Hw Hz H1 Hg1) as (t & Et & Hpw & Vt).
+        unfold ev_exact_one in Er. rewrite Et in Er. apply pow_ok_spec in Hpw.
+        rewrite wrap32_id in Er by (unfold in32, H32; lia).
+        apply esa_value_reduce in Er; [|cbn [snd]; lia].
+        rewrite Er, <- Vt, Ho1. unfold Evaluate.esa_value. cbn [fst snd Compile.afac_value]. rewrite pow2_add. ring.
+    Qed.
+
+    Theorem eval_correct gs c : Forall (wf_scalar ps) gs -> compile_scalar_graphs gs ps = Some c ->
+      eval_guard bits c = true ->
+      exists r, evaluate bits c = Some r /\ result_value r = rsuml (map (scalar_value vals) gs).
+    Proof.
+      intros Hwf Hc Hg. unfold compile_scalar_graphs in Hc.
+      set (kept := filter (fun g => negb (s_is_zero g)) gs) in *.
+      destruct (all_some (map _ kept)) as [cgs|] eqn:Ecgs; [|discriminate].
+      assert (Hc' : c = mkC (length ps) (existsb (fun cg => negb (afac_is_one (cg_approx cg))) cgs) cgs) by congruence. subst c. clear Hc.
+      apply all_some_Forall2 in Ecgs.
+      assert (Hk : Forall (fun g => wf_scalar ps g /\ s_is_zero g = false) kept).
+      { apply Forall_forall. intros g Hin. apply filter_nonzero in Hin. destruct Hin as [Hin Hz].
+        rewrite Forall_forall in Hwf. split; [apply Hwf; exact Hin | exact Hz]. }
+      unfold eval_guard in Hg. cbn [c_graphs c_has_approx] in Hg. apply andb_true_iff in Hg. destruct Hg as [Hgg Hgs].
+      unfold evaluate. cbn [c_graphs c_has_approx]. rewrite <- (rsuml_filter_zero gs). fold kept.
+      destruct (existsb (fun cg => negb (afac_is_one (cg_approx cg))) cgs) eqn:Eap.
+      - destruct (approx_sum _ _ _ _ kept cgs Ecgs Hk Hgg) as (l & El & Vl). rewrite El. eexists. split; [reflexivity | exact Vl].
+      - destruct (all_some (map (ev_exact_one bits) cgs)) as [l|] eqn:El; [|discriminate].
+        destruct (sum_guard_exact l Hgs) as [E (s0 & m & Hex)].
+        rewrite E, Hex. eexists. split; [reflexivity|]. cbn [Evaluate.result_value].
+        rewrite (esa_sum_value l (s0, m) Hgs) by (rewrite E; exact Hex).
+        apply (exact_sum _ _ _ _ kept cgs Ecgs l Hk Hgg); [|exact El].
+        apply Forall_forall. intros cg Hin.
+        assert (Hn : negb (afac_is_one (cg_approx cg)) = false).
+        { destruct (negb (afac_is_one (cg_approx cg))) eqn:En; [|reflexivity].
+          assert (Hex' : existsb (fun cg => negb (afac_is_one (cg_approx cg))) cgs = true) by (apply existsb_exists; exists cg; split; assumption).
+          rewrite Hex' in Eap. discriminate. }
+        destruct (cg_approx cg); cbn in Hn; [reflexivity | discriminate | discriminate].
+    Qed.
+  End Graphs.
+End RingSem.
+
+(* ====================================================================== 5. compile never fails on well-formed scalars *)
+Lemma norm1_pos_iff c : c <> q4_zero <-> 0 < norm1 c.
+Proof.
+  destruct c as [[[a b] c0] d]. unfold q4_zero, norm1. split.
+  - intro H. destruct (Z.eq_dec a 0), (Z.eq_dec b 0), (Z.eq_dec c0 0), (Z.eq_dec d 0); subst; try lia. exfalso. apply H. reflexivity.
+  - intros H E. inversion E. subst. cbn in H. lia.
+Qed.
+Lemma norm1_halve c : all_even c = true -> 2 * norm1 (halve c) = norm1 c.
+Proof. intro H. rewrite <- (halve_double c H) at 2. rewrite norm1_scale. reflexivity. Qed.
+
+Lemma dy_norm_total n : forall k c, 0 < norm1 c < 2 ^ Z.of_nat n -> exists d, dy_norm_fuel n k c = Some d /\ dy_c d <> q4_zero.
+Proof.
+  induction n as [|n IH]; intros k c Hc; cbn [dy_norm_fuel].
+  - cbn in Hc. lia.
+  - destruct (all_even c) eqn:E.
+    + apply IH. pose proof (norm1_halve c E). rewrite Nat2Z.inj_succ, Z.pow_succ_r in Hc by lia. lia.
+    + eexists. split; [reflexivity|]. cbn [dy_c]. apply norm1_pos_iff. lia.
+Qed.
+Lemma dy_make_total k c : c <> q4_zero -> exists d, dy_make k c = Some d /\ dy_c d <> q4_zero.
+Proof.
+  intro Hc. apply norm1_pos_iff in Hc. unfold dy_make, dy_fuel. apply dy_norm_total. split; [exact Hc|].
+  rewrite Nat2Z.inj_succ, Z2Nat.id by apply Z.log2_nonneg. apply Z.log2_spec. exact Hc.
+Qed.
+Lemma mul_sqrt2_nonzero c : c <> q4_zero -> q4_mul_ref c (0, 1, 0, 1) <> q4_zero.
+Proof.
+  destruct c as [[[a b] c0] d]. unfold q4_mul_ref, q4_zero. intros H E. apply H. inversion E. f_equal; [f_equal; [f_equal|]|]; lia.
+Qed.
+Lemma static_float_total g : dy_c (s_floatfactor g) <> q4_zero -> exists r, static_float g = Some r.
+Proof.
+  intro H. unfold static_float. destruct (dy_make_total (dy_k (s_floatfactor g)) _ H) as (dn & -> & Hdn).
+  destruct (Z.odd (s_power2 g)); [|eexists; reflexivity].
+  unfold dy_mul, dy_sqrt2. cbn [dy_c dy_k].
+  destruct (dy_make_total (dy_k dn + 0) _ (mul_sqrt2_nonzero _ Hdn)) as (dn' & -> & _). eexists. reflexivity.
+Qed.
+Lemma all_some_total {A B} (f : A -> option B) l : Forall (fun x => exists y, f x = Some y) l -> exists l', all_some (map f l) = Some l'.
+Proof.
+  induction 1 as [|x l [y Hy] _ [l' IH]]; cbn [map all_some]; [eexists; reflexivity|]. rewrite Hy, IH. eexists. reflexivity.
+Qed.
+Theorem compile_total gs ps : Forall (wf_scalar ps) gs -> exists c, compile_scalar_graphs gs ps = Some c.
+Proof.
+  intro Hwf. unfold compile_scalar_graphs.
+  match goal with |- context [all_some (map ?f ?l)] => destruct (all_some_total f l) as [cgs ->] end; [|eexists; reflexivity].
+  apply Forall_forall. intros g Hin. apply filter_In in Hin. destruct Hin as [Hin _].
+  rewrite Forall_forall in Hwf. destruct (Hwf g Hin) as [_ _ _ _ _ _ Hff].
+  unfold compile_one. destruct (static_float_total g Hff) as [[p2 ff] ->]. eexists. reflexivity.
+Qed.
+
+(* when every graph is the zero scalar nothing is left to sum: jnp.min over the empty graph axis raises *)
+Theorem all_zero_raises gs ps c bits : Forall (fun g => s_is_zero g = true) gs -> compile_scalar_graphs gs ps = Some c ->
+  evaluate bits c = None.
+Proof.
+  intros Hz Hc. unfold compile_scalar_graphs in Hc.
+  assert (Hk : filter (fun g => negb (s_is_zero g)) gs = []).
+  { clear Hc. induction Hz as [|g gs Hg _ IH]; cbn [filter]; [reflexivity|]. rewrite Hg. exact IH. }
+  rewrite Hk in Hc. cbn in Hc. assert (c = mkC (length ps) false []) by congruence. subst c. reflexivity.
+Qed.
+
+(* every 0/1 row of param_vals is `row_of vals ps` for some binary vals (params without duplicates) *)
+Lemma row_of_surjective ps : NoDup ps -> forall bits, length bits = length ps ->
+  exists vals, binary vals /\ row_of vals ps = bits.
+Proof.
+  induction ps as [|p ps IH]; intros Hnd bits Hlen.
+  - destruct bits; [|discriminate]. exists (fun _ => 0). split; [intro; left; reflexivity | reflexivity].
+  - destruct bits as [|b bits]; [discriminate|]. inversion Hnd as [|? ? Hnp Hnd']; subst.
+    destruct (IH Hnd' bits ltac:(cbn in Hlen; lia)) as (vals & Hb & Hr).
+    exists (fun v => if Nat.eqb v p then b2z b else vals v). split.
+    + intro v. destruct (Nat.eqb v p); [apply b2z_binary | apply Hb].
+    + unfold row_of in *. cbn [map]. rewrite Nat.eqb_refl. f_equal; [destruct b; reflexivity|].
+      rewrite <- Hr. apply map_ext_in. intros q Hq. destruct (Nat.eqb q p) eqn:E; [|reflexivity].
+      apply Nat.eqb_eq in E. subst q. contradiction.
+Qed.
+
+(* ====================================================================== 6. non-vacuity helpers *)
+(* a boolean version of wf_scalar, so that concrete examples are checked by computation *)
+Fixpoint nodupb (l : list var) : bool := match l with [] => true | x :: r => negb (mem x r) && nodupb r end.
+Definition vars_okb (ps vs : list var) : bool := nodupb vs && forallb (fun v => mem v ps) vs.
+Definition byteb (k : Z) : bool := (0 <=? k) && (k <? 256).
+Definition wf_scalarb (ps : list var) (g : scalar) : bool :=
+  forallb (fun t => byteb (fst t) && vars_okb ps (snd t)) (s_phasenodes g) &&
+  forallb (fun pp => byteb (sp_alpha pp) && byteb (sp_beta pp) && vars_okb ps (sp_A pp) && vars_okb ps (sp_B pp)) (s_phasepairs g) &&
+  forallb (vars_okb ps) (s_halfpi1 g) && forallb (vars_okb ps) (s_halfpi3 g) &&
+  forallb (fun pq => vars_okb ps (snd (fst pq)) && vars_okb ps (snd (snd pq))) (s_pi_pair g) &&
+  (0 <=? s_phase_n g) && (match quarter_den (s_phase_d g) with Some m => s_phase_n g * m <? 8 | None => true end) &&
+  negb (is_zero4 (dy_c (s_floatfactor g))).
+
+Lemma nodupb_sound l : nodupb l = true -> NoDup l.
+Proof.
+  induction l as [|x l IH]; cbn [nodupb]; intro H; constructor; apply andb_true_iff in H; destruct H as [H1 H2].
+  - intro Hin. apply mem_In in Hin. rewrite Hin in H1. discriminate.
+  - apply IH. exact H2.
+Qed.
+Lemma vars_okb_sound ps vs : vars_okb ps vs = true -> vars_ok ps vs.
+Proof.
+  unfold vars_okb, vars_ok. rewrite andb_true_iff, forallb_forall. intros [H1 H2]. split; [apply nodupb_sound; exact H1|].
+  intros v Hv. apply mem_In. apply H2. exact Hv.
+Qed.
+Lemma byteb_sound k : byteb k = true -> byte k.
+Proof. unfold byteb, byte. rewrite andb_true_iff, Z.leb_le, Z.ltb_lt. tauto. Qed.
+Lemma wf_scalarb_sound ps g : wf_scalarb ps g = true -> wf_scalar ps g.
+Proof.
+  unfold wf_scalarb. rewrite !andb_true_iff. intros [[[[[[[H1 H2] H3] H4] H5] H6] H7] H8].
+  rewrite forallb_forall in H1, H2, H3, H4, H5.
+  constructor.
+  - apply Forall_forall. intros t Ht. specialize (H1 t Ht). apply andb_true_iff in H1. destruct H1 as [Ha Hb].
+    split; [apply byteb_sound | apply vars_okb_sound]; assumption.
+  - apply Forall_forall. intros t Ht. specialize (H2 t Ht). rewrite !andb_true_iff in H2. destruct H2 as [[[Ha Hb] Hc] Hd].
+    split; [apply byteb_sound; assumption|]. split; [apply byteb_sound; assumption|]. split; apply vars_okb_sound; assumption.
+  - apply Forall_forall. intros t Ht. apply vars_okb_sound, H3, Ht.
+  - apply Forall_forall. intros t Ht. apply vars_okb_sound, H4, Ht.
+  - apply Forall_forall. intros t Ht. specialize (H5 t Ht). apply andb_true_iff in H5. destruct H5 as [Ha Hb].
+    split; apply vars_okb_sound; assumption.
+  - split; [apply Z.leb_le; exact H6|]. intros m Hm. rewrite Hm in H7. apply Z.ltb_lt. exact H7.
+  - intro E. rewrite E in H8. discriminate.
+Qed.
+
+(* a non-trivial ring meeting the hypotheses of the semantic theorems: Q(w) = Q[x]/(x^4+1), power basis *)
+From Coq Require Import QArith Qcanon.
+Module QW.
+  Local Open Scope Qc_scope.
+  Definition t := (Qc * Qc * Qc * Qc)%type.
+  Definition zero : t := (0, 0, 0, 0).
+  Definition one : t := (1, 0, 0, 0).
+  Definition add (x y : t) : t := let '(a0, a1, a2, a3) := x in let '(b0, b1, b2, b3) := y in (a0 + b0, a1 + b1, a2 + b2, a3 + b3).
+  Definition opp (x : t) : t := let '(a0, a1, a2, a3) := x in (- a0, - a1, - a2, - a3).
+  Definition sub (x y : t) : t := add x (opp y).
+  Definition mul (x y : t) : t :=
+    let '(a0, a1, a2, a3) := x in let '(b0, b1, b2, b3) := y in
+    (a0 * b0 - a1 * b3 - a2 * b2 - a3 * b1,
+     a0 * b1 + a1 * b0 - a2 * b3 - a3 * b2,
+     a0 * b2 + a1 * b1 + a2 * b0 - a3 * b3,
+     a0 * b3 + a1 * b2 + a2 * b1 + a3 * b0).
+  Definition w : t := (0, 1, 0, 0).
+  Definition half : t := (Q2Qc (1 # 2), 0, 0, 0).
+  Ltac t4 := repeat match goal with x : t |- _ => destruct x as [[[? ?] ?] ?] end; unfold sub; unfold add, mul, opp, zero, one;
+             repeat match goal with |- (_, _) = (_, _) => apply f_equal2 end; try ring.
+  Lemma ring : ring_theory zero one add mul sub opp eq.
+  Proof. constructor; intros; t4. Qed.
+  Lemma w4 : mul (mul w w) (mul w w) = opp one.
+  Proof. unfold w. t4. Qed.
+  Lemma half2 : add half half = one.
+  Proof. unfold half. t4. apply Qc_is_canon. reflexivity. Qed.
+  Lemma nontrivial : zero <> one.
+  Proof. unfold zero, one. intro H. inversion H. Qed.
+End QW.
